@@ -3,6 +3,7 @@ CONSTANTS
   Orders <- OrdersAll
   Dts <- DtsQ
   Targets <- TargQ
+  TsTargets <- TargU
   MaxTs = 2
   PublicQueue = FALSE
   LeftRenormSite = 0
